@@ -27,7 +27,9 @@ func buildInstrumented(c *runCtx, out string, race bool) error {
 	os.MkdirAll(outDir, 0o755)
 	extra := map[string]string{}
 	if po := perfOverlay(c); po != nil {
-		extra["/repo/masswallet/keystore/snacl/snacl.go"] = filepath.Join(c.Scratch, "overlay_snacl.go")
+		for k, v := range c.OverlayFiles {
+			extra[k] = v
+		}
 	}
 	eb, _ := json.Marshal(extra)
 	cmd = exec.Command(vin, "/repo", filepath.Join(c.Root, "harness", "instr", "shim.go.txt"), outDir)
